@@ -19,7 +19,8 @@ import z3
 from vlib import core, pool, relang
 from vlib.pool import JobResult
 from harness import hc
-from harness.C07 import plain, mk_string
+from harness.C07 import mk_string
+plain = hc.plain
 from symrun import engine as E, templates as T
 from symrun.values import SymInt, symint
 from symrun.strings import SymStr, symcell, _mk
